@@ -15,7 +15,7 @@ MSG   = `{"t":"append",…} | {"t":"chunk",…} | {"t":"snap",…} | {"t":"apply
 OUT   = `["send",dst,MSG] | ["cb",id,code] | ["addNode",n] | ["dropNode",n]`
 
 ops: `send` (one destination), `sendall`, `check`, `submit`, `recv_apply`, `recv_response`,
-`leader_changed`, `fappend`, `restore`, `reapply`, `chunks`, `fold`, `admin_remove`, `rounds`, `journalfold`, `capture`, `frun` (a list of `fappend` messages delivered in order), `appendmsg` (the whole `append_entries` handler: `extra`, `from`, `term`, `commit`,
+`leader_changed`, `fappend`, `restore`, `restartnode`, `reapply`, `chunks`, `fold`, `admin_remove`, `rounds`, `journalfold`, `capture`, `frun` (a list of `fappend` messages delivered in order), `appendmsg` (the whole `append_entries` handler: `extra`, `from`, `term`, `commit`,
 `kind` = `{"regular":{prev,entries|chunk}}` | `{"snap": null | "notlast" | "broken" | {prevE,lastE,cluster}}`)
 (`send` takes `"match": null | n` = the destination's matchIndex, repair D62).
 -/
@@ -407,6 +407,19 @@ def handle (j : Json) : Except String Json := do
   | "fold" =>
     let m := foldConfig (← jOptNat (fldD j "self")) (← jNats (← fld j "base")) (← jEntries (← fld j "log"))
     return Json.mkObj [("members", nats (sortNats m))]
+  | "restartnode" =>
+    -- kill + start of a journaled node: `state` = the node before the kill (journal + meta), `extra` = votedFor/votes,
+    -- `storedCommit` = commit index of the journal's meta, `dump` = null | {prevE, lastE}
+    let s ← jState (← fld j "state")
+    let xj ← fld j "extra"
+    let x : Extra := ⟨← jOptNat (fldD xj "votedFor"), ← jNat (← fld xj "votes")⟩
+    let dj := fldD j "dump"
+    let dump : Option (Entry × Entry) ← (do
+      if dj.isNull then return none
+      else return some (← jEntry (← fld dj "prevE"), ← jEntry (← fld dj "lastE")))
+    let s' := restartNode s (← jNat (← fld j "storedCommit")) dump
+    let x' := restartExtra x
+    return Json.mkObj [("state", stateJ s'), ("extra", Json.mkObj [("votedFor", optNat x'.votedFor), ("votes", nat x'.votes)])]
   | "admin_remove" =>
     let s ← jState (← fld j "state")
     return Json.mkObj [("denied", Json.bool (adminRemoveDenied s (← jNat (← fld j "node"))))]
